@@ -84,6 +84,9 @@ def run_property(prop: str, tier: str, repo: str, overlay=None, *, write_evidenc
     if not os.environ.get("FORMULINT_RAW_ONLY"):
         from .normalize import Normalizer, StatementNormalizer
         nz = Normalizer(project)
+        from . import sym as _sym
+        _sym.SIGNATURES.clear()
+        _sym.SIGNATURES.update(nz.signatures)
         views.append(("normalised", Project(repo, overlay, normalizer=nz)))
         views.append(("normalised-statements", Project(repo, overlay, normalizer=StatementNormalizer(nz))))
         views[-1][1].view = "normalised-statements"
